@@ -137,6 +137,10 @@ impl CommandProcessor<Sink, SinkErr> for Handler {
         for t in out {
             cli.writer().write_str(&t)?;
         }
+        // a handler that rejects the line after having produced its output: the library prints the error itself
+        if raw.name() == "cmd" {
+            return Err(ProcessError::ParseError(embedded_cli::service::ParseError::UnknownCommand));
+        }
         Ok(())
     }
 }
@@ -291,7 +295,9 @@ pub fn run(r: &mut Rng, iters: usize, only: &str) -> Option<Cex> {
 fn one_session<C: Names + embedded_cli::service::Autocomplete + embedded_cli::service::Help>(r: &mut Rng, it: usize, only: &str) -> Option<Cex> {
     let cap = if it % 4 == 0 { r.below(8) } else { 8 + r.below(24) };
     let hcap = if it % 5 == 0 { r.below(6) } else { r.below(40) };
-    let inject = want(only, "C14") && (only == "C14" || it % 3 == 0);
+    // a sink that fails once: always when looking for C14, now and then otherwise (C15: what is written after a failed
+    // call must still be flushed)
+    let inject = (want(only, "C14") && (only == "C14" || it % 3 == 0)) || (only == "C15" && it % 3 == 0);
     let sink = Sink(Rc::new(RefCell::new(SinkState::default())));
     if inject {
         sink.0.borrow_mut().fail_at = Some(1 + r.below(60));
@@ -409,9 +415,16 @@ fn one_session<C: Names + embedded_cli::service::Autocomplete + embedded_cli::se
                 if !delta.is_empty() && delta.last() != Some(&SinkEv::F) && want(only, "C15") {
                     return Some(Cex { input: trace, expected: "last sink operation of the call is a flush".into(), actual: format!("{:?}", delta) });
                 }
-                let (rt, rc) = {
-                    let e = cli.editor.as_ref().expect("editor present");
-                    (crate::lib_str(e.text()).to_string(), e.cursor())
+                let (rt, rc) = match cli.editor.as_ref() {
+                    Some(e) => (crate::lib_str(e.text()).to_string(), e.cursor()),
+                    None => {
+                        // the session lost its editor (only possible after a failed call): C14 says the CLI stays usable
+                        if want(only, "C14") {
+                            return Some(Cex { input: trace, expected: "the CLI keeps its line editor after every call (usable session)".into(), actual: "Cli.editor is None".into() });
+                        }
+                        desync = true;
+                        (m.text(), m.cur)
+                    }
                 };
                 if (rt.clone(), rc) != (m.text(), m.cur) && (want(only, "C13") || want(only, "C05")) {
                     return Some(Cex { input: trace, expected: format!("line {:?} cursor {} untouched", m.text(), m.cur), actual: format!("line {:?} cursor {}", rt, rc) });
@@ -519,18 +532,25 @@ fn one_session<C: Names + embedded_cli::service::Autocomplete + embedded_cli::se
         }
         let after = (m.text(), m.cur);
         // ---- real step
-        let (pre_real_cursor, pre_real_len) = {
-            let e = cli.editor.as_ref().expect("editor present");
-            (e.cursor(), crate::lib_str(e.text()).chars().count())
+        let (pre_real_cursor, pre_real_len) = match cli.editor.as_ref() {
+            Some(e) => (e.cursor(), crate::lib_str(e.text()).chars().count()),
+            None => (0, 0),
         };
         let res = cli.process_byte::<C, _>(b, &mut handler);
         let st = sink.0.borrow();
         let delta: Vec<SinkEv> = st.evs[n_evs_before..].to_vec();
         let failed_now = st.failed > failed_before;
         drop(st);
-        let (rt, rc) = {
-            let e = cli.editor.as_ref().expect("editor present");
-            (crate::lib_str(e.text()).to_string(), e.cursor())
+        let (rt, rc) = match cli.editor.as_ref() {
+            Some(e) => (crate::lib_str(e.text()).to_string(), e.cursor()),
+            None => {
+                // the session lost its editor (only possible after a failed call): C14 says the CLI stays usable
+                if want(only, "C14") {
+                    return Some(Cex { input: trace, expected: "the CLI keeps its line editor after every call (usable session)".into(), actual: "Cli.editor is None".into() });
+                }
+                desync = true;
+                (m.text(), m.cur)
+            }
         };
         // C14: a failing sink is reported
         if failed_now && res.is_ok() && want(only, "C14") {
@@ -629,6 +649,9 @@ fn one_session<C: Names + embedded_cli::service::Autocomplete + embedded_cli::se
                 e.extend(&body);
                 if !body.is_empty() && *body.last().unwrap() != b'\n' {
                     e.extend(b"\r\n");
+                }
+                if toks[0] == b"cmd" {
+                    e.extend(b"error: unknown command\r\n");
                 }
                 e.extend(prompt.as_bytes());
                 let a = bytes_of(&delta);
